@@ -10,7 +10,8 @@ CFG = dict(
         "table_canon_empty", "table_face_canonical", "table_cell_flow", "table_face_consistent",
         "table_case_edges_nodup", "table_canon_no_antiparallel",
         # gluing: arbitrary box, arbitrary sign pattern, boundary layer outside
-        "march_closed_balanced", "cells_glue_face", "cell_edges_nodup", "C09_closed_partial",
+        "march_closed_balanced", "cells_glue_face", "cell_edges_nodup",
+        "table_segs_unit", "table_shared_edges", "box_edges_nodup", "march_closed", "march_closed_exactly_one",
         # weld
         "weld_preserves_balance", "weld_nondegenerate",
         # block storage
@@ -26,9 +27,9 @@ CFG = dict(
         "driver's n log n evaluation of Closed (cross-checked against the quadratic specification predicate on meshes <= 150 triangles on every run)",
     ],
     residue=[
-        "'matched by EXACTLY one': C09_closed_full (Balanced ∧ Nodup of the box's directed edges) is a def, not a theorem; proved: balance over any box (march_closed_balanced), no duplicate inside a cell (cell_edges_nodup), opposite segments on a shared face (cells_glue_face); across cells decided per run by c09.holds.closed",
         "outward orientation / positive enclosed volume: decided per run by c09.holds.outward (signed volume, Float), no theorem",
         "float-keyed vertex sharing (LookupOrAdd at 1e-4, WeldByFloat3Attribute at 1e-3): theorems identify a vertex with its lattice edge (exact arithmetic, interp_symmetric); that rounded float keys realise exactly this identification (no pinching, cell size >> 1e-3) is observed on the final mesh by the oracles; weld_preserves_balance covers any merge",
+        "march_closed (balanced AND no directed edge twice = matched by exactly one) is a theorem at the level of lattice-edge ids, for a box of cells; the step from lattice-edge ids to the float vertex ids of the real mesh is the float-keyed sharing above",
         "that the cells the real marcher visits differ from a bounding box only by all-outside cells: skipped_cells_outside + empty row 0, not assembled into one statement with march_closed_balanced",
         "canvasPosToChunkPos computes floor(x/100) through float64 (exact for |x| < 2^46): assumed, tied by the grid correspondence at negative coordinates",
         "vertex within one cell of the TRUE isosurface: vertex_near_isosurface (IVT along the lattice edge, f continuous) + interp_between are theorems; that the analytic field changes sign along the very edge each output vertex lies on is the per-run oracle c09.holds.near_iso",
